@@ -22,7 +22,8 @@ copy of the same two functions:
             self._gather_helper_code(name, done)
 
 Differences between the four copies (none of them touches the traversal):
-* TABLE is `whelpers.CHelpers` (wrapc, wrapp), `whelpers.FHelpers` (wrapf), `wrapl.LuaHelpers` (wrapl);
+* TABLE is `whelpers.CHelpers` (wrapc, wrapp), `whelpers.FHelpers` (wrapf), `wrapl.LuaHelpers` (wrapl, where the
+  two functions are methods of the small class `wrapl.Helpers`, instance `Wrapl.helpers`);
 * what "emit" appends: wrapc `helper_include[scope]` / `helper_source[scope]` with the keys
   `c_include|cxx_include|include`, `c_source|cxx_source|source`; wrapp and wrapl
   `helper_summary[include|proto|source][scope]` keyed by `<language>_<key>` (wrapp also ORs `need_numpy`);
